@@ -26,6 +26,7 @@ GEN = {  # gen cfg -> fn
     "lattdir4": "latmio_dir", "lattdirconn4": "latmio_dir_connected",
     "mask4": "randomize_graph_partial_und", "mask5": "randomize_graph_partial_und",
 }
+RANDOMIZER_GEN = {"5": 30, "6": 30}
 MC_QUICK = ["q_und4", "q_dir4", "q_lattund4", "q_lattdir4", "q_mask4"]
 MC_THOROUGH = ["q_und4", "t_und5", "t_dir4", "t_lattund5", "t_lattdir4", "t_mask4"]
 
@@ -65,6 +66,27 @@ def behaviour_jobs(ctx, prop, gens, per_worker):
                 job = rc.model_to_job(fn, prop, it, itr=(it["iters"] + 0.5) / k)
             job["cfg"] = cfg
             jobs.append(job)
+    return jobs
+
+
+def randomizer_jobs(ctx, prop, per_worker):
+    """behaviours of spec/RandomizerImpl.tla (alpha coin, mate index, orientation) replayed into
+    randomizer_bin_und with alpha = 1/2"""
+    res = ctx.parallel([(lambda n=n: ctx.gen("MC_Randomizer.tla", "Gen_Randomizer_%s.cfg" % n,
+                                             tag="sim_randomizer" + n, workers=4, timeout=600,
+                                             extra=["-simulate", "num=%d" % per_worker, "-depth", "80",
+                                                    "-seed", str(ctx.seed + 23)])) for n in RANDOMIZER_GEN],
+                       width=2)
+    jobs, seen = [], set()
+    for items in res:
+        for it in items:
+            key = (str(it["R0"]), str(it["script"]))
+            if key in seen or it["rejected"]:
+                continue
+            seen.add(key)
+            jobs.append(dict(fn="randomizer_bin_und", prop=prop, R0=it["R0"], alpha=0.5,
+                             script=[list(x) for x in it["script"]], expect=dict(R=it["R"], eff=0),
+                             src="model-behaviour", cfg="randomizer"))
     return jobs
 
 
@@ -120,6 +142,8 @@ def run_family(ctx, prop, fns, gens, mc_cfgs, extra_mc=()):
     thunks += [(lambda t=t, c=c: ctx.mc(t, c, workers=6)) for t, c in extra_mc]
     ctx.parallel(thunks, width=4)
     jobs = behaviour_jobs(ctx, prop, gens, 80 if ctx.quick else 800)
+    if prop == "C01":
+        jobs += randomizer_jobs(ctx, prop, 40 if ctx.quick else 400)
     nb = len(jobs)
     jobs += random_jobs(ctx, prop, fns, 270 if ctx.quick else 4500)
     recs = pool.run_jobs("harness.props.c01", jobs, limit=10.0)
@@ -152,7 +176,8 @@ def run_family(ctx, prop, fns, gens, mc_cfgs, extra_mc=()):
 
 def run(ctx):
     return run_family(ctx, PROP, FNS, GEN, MC_QUICK if ctx.quick else MC_THOROUGH,
-                      extra_mc=[("MC_PermLemma.tla", "MC_PermLemma.cfg")])
+                      extra_mc=[("MC_PermLemma.tla", "MC_PermLemma.cfg"),
+                                ("MC_Randomizer.tla", "MC_Randomizer_5.cfg" if ctx.quick else "MC_Randomizer_6.cfg")])
 
 
 def replay(ctx, rp):
